@@ -77,6 +77,11 @@ def gen_cases(rng, tier):
         l, t = rng.uniform(0, 12), rng.uniform(0, 12)
         r, b = l + rng.uniform(0.1, 11), t + rng.uniform(0.1, 11)
         cases.append(("fill_px", [0, 1, 2, w, h, 0, w, 750, 350] + list(IDENT) + [5, g(l, 256.0), g(t, 256.0), g(r, 256.0), g(b, 256.0)]))
+    # Mask::fill_path onto a mask that already holds data (kind 3): drawn on top, never replaced
+    for i in range(40 if tier == "quick" else 500):
+        w, h = rng.choice([(24, 24), (40, 30)])
+        ops = rand_path_ops(rng, w / 2, h / 2, min(w, h) / 2 - 2, curves=rng.random() < 0.3)
+        cases.append(("fill_px", [i % 2, 1, 3, w, h, 0, w, 750, 350] + list(IDENT) + ops))
     for i in range(4 if tier == "quick" else 24):
         ops = rand_path_ops(rng, 8191 + rng.uniform(-6, 6), 10, 9, curves=False)
         # kind 0: Pixmap::fill_path, kind 1: Mask::fill_path (both are tiled above 8191)
